@@ -138,7 +138,8 @@ def run(rep: Report) -> None:
             if cfg.u_in == 0:
                 Q = qo
             elif cfg.u_in == 1:
-                fl = E.mul(E.mul(p.states["UIN"]["states"]["rho"][0], p.states["UIN"]["states"]["v"][0]), E.S("UIN.lam"))
+                uin = "SELF" if getattr(cfg, "selfloop", False) else "UIN"  # (a one-link ring feeds itself)
+                fl = E.mul(E.mul(p.states[uin]["states"]["rho"][0], p.states[uin]["states"]["v"][0]), E.S(f"{uin}.lam"))
                 Q = nz.rf(E.at(E.idx(fl, -1), None, env))
                 if qo is not None:
                     Q = Q + qo
